@@ -7,13 +7,33 @@ E1NOTE = 'z3 LRA as exact per-execution oracle on concrete results, every witnes
 def e1(what, ref):
     return ('exploration', 'bounded exhaustive enumeration of inputs/configurations executed on the real code, exact rational oracle per execution',
             what + ' A coverage statement over the stated finite grid (complete enumeration, no sampling), not a proof beyond it.', E1NOTE, ref)
+MC_NOTE = 'the real pacti code is executed; installed numpy/scipy/sympy/pyparsing are part of the implementation; bounds (deviations, construction depth, pool size) as printed in the evidence'
 CHECKS = {
  # id: (level, technique, level text, note, design_ref)
- 'C03': e1('Every ordered pair of small constraint lists / contracts of the grid (incl. derived Farkas consequences, duplicates, scalings, infeasible sides, every pair of different interfaces) is put through refines, <=, contains_environment and contains_implementation and compared with an exact three-valued containment verdict.', 'DESIGN.md 4/C03'),
+ 'C01': e1('Contract pairs of six wirings (independent, cascade both call orders, shared input, feedback, two internal variables, cascade + external input) x vars_to_keep x simplify x tactic orders are composed for real and an exact search looks for a situation in which the result\'s assumptions hold, both components honour their contracts and an operand assumption or a result guarantee is broken.', 'DESIGN.md 4/C01'),
+ 'C02': e1('Dividends built by composition (so that a quotient exists), relaxed / re-assumed variants and unrelated dividends x both divisor roles x additional_inputs x simplify x tactic orders; exact search for a situation breaking "divisor composed with quotient meets the dividend"; both branches of the assumption-implication guard observed.', 'DESIGN.md 4/C02'),
+ 'C03': e1('Every ordered pair of small constraint lists / contracts of the grid (incl. derived Farkas consequences, duplicates, scalings, infeasible and far-from-origin sides, separated pairs, every pair of different interfaces) is put through refines, <=, contains_environment and contains_implementation and compared with an exact three-valued containment verdict.', 'DESIGN.md 4/C03'),
  'C04': e1('Every case of a stated finite grid (coefficients {-1,0,1,2}, <=2+3 terms, <=4 variables) is executed under every tactic configuration (each singleton, default, reversed, all 120 permutations on a sub-grid, simplify on/off, refine and relax) and the implication required by the property is decided exactly for each execution.', 'DESIGN.md 4/C04'),
+ 'C05': ('model_checking', 'stateless model checking of the real algebra code: deviation-bounded enumeration of every answer sequence of abstract primitives over every interface topology; Horn/truth-table entailment oracle; conformance replay of recorded polyhedral traces',
+         'The real IoContract.compose/quotient/merge run on a symbolic TermList; every primitive call is a choice point answered from a finite menu covering the documented primitive contracts; all answer sequences up to the stated deviation bound (complete trees for <=2 variables in thorough) over all topologies / mention patterns / arguments are explored and each returned result must satisfy the C01/C02/C08 obligation as a consequence of the recorded primitive facts. The model is bound to the code by replaying the abstracted primitive traces of real polyhedral runs (traces_validated_against_impl).',
+         MC_NOTE + '; the menu is an abstraction of a constraint domain, validated against the polyhedral domain by the conformance replay; the axioms attached to answers are what C03/C04/C07 check for polyhedra', 'DESIGN.md 4/C05'),
+ 'C06': e1('Every ordered role assignment of up to 5 (thorough 6) variables to two contracts x mention patterns x kept / additional variables for compose, quotient, merge under the always-succeed environment, and every one-contract role assignment x (source,target) for rename, copy and ill-formed constructor arguments, compared with an independent set-algebra reference of the prescribed interface.', 'DESIGN.md 4/C06'),
  'C07': e1('Every (list, context) of the grid, every planted redundancy (duplicate, scaling, sum, tight and nearly tight copies, implied only via context) and the contract constructor / simplify() are executed; sub-multiset, equivalence in context, irredundancy and the ValueError-only-if-infeasible rule are decided exactly.', 'DESIGN.md 4/C07'),
+ 'C08': e1('All ordered pairs of contracts over five interface shapes incl. duplicated and mutually redundant terms; interface union, two-way equivalence of assumptions and of assumptions-and-guarantees, and agreement of both operand orders are decided exactly.', 'DESIGN.md 4/C08'),
+ 'C09': e1('Expression trees generated from the documented BNF (not from the code) are rendered in every combination of spelling choices and parsed by the real parser; the parsed inequalities are compared with an independent exact piecewise-linear reference semantics for all real points; must-accept / may-reject classes, spelling-independence, malformed strings and determinism are checked.', 'DESIGN.md 4/C09'),
+ 'C10': e1('Contracts over a magnitude ladder ([1e-4,1e6], 4-digit decimals, +-1 ulp, 5th/6th digit perturbations) with opposite-term pairs in every position are round-tripped through machine dictionary, string form and both file representations; exact identity, exact rounded-reading equality (decimal reference rounding) and semantic equivalence are checked.', 'DESIGN.md 4/C10'),
  'C11': e1('Every list of the grid is evaluated on every behaviour of a dyadic lattice (on, inside and outside every boundary), with unassigned and extra variables; is_empty on every small list and on thin systems; consistency with refines on all pairs.', 'DESIGN.md 4/C11'),
  'C12': e1('Every contract of the grids (infeasible, bounded, unbounded; dense 3-variable systems where the LP presolve misreports) x 9 objectives x both directions and get_variable_bounds is compared with the exact rational LP answer.', 'DESIGN.md 4/C12'),
+ 'C13': ('model_checking', 'explicit-state exploration of operation histories on the real library: every operation x every argument tuple of a growing pool, state fingerprints (modules, grammar graph, pool with identity partition), every transition compared with the same call in a process forked from a pristine interpreter',
+         'Each worker is one long session executing its shard of all (operation, argument tuple) transitions over a typed pool into which results are fed back (construction depth 2-3), followed by a history in which every ordered pair of operation kinds is adjacent. After every transition the hidden state (all pacti module/class-level objects, pyparsing grammar graph) and every pool member must be unchanged, the result must be identity-disjoint from operands and globals, and must equal bit for bit the result of the same call in a fresh interpreter. Because the reachable hidden state closes to the initial one, the verdict extends by induction to histories of any length over the explored pool.',
+         MC_NOTE + '; third-party caches are only observed behaviourally (fresh-process comparison)', 'DESIGN.md 4/C13'),
+ 'C14': ('fault_enumeration', 'exhaustive single-field fault enumeration of valid contract dictionaries / files against a reference validator, plus exhaustive adversarial grids through every public operation with exception classification and operand snapshots',
+         'Every JSON path x {delete, null, bool, int, float, string, list, dict} of valid dictionaries in both representations is fed to validate_contract_dict, from_dict and the file reader and judged by an independent three-valued reference validator; an adversarial grid (empty, variable-free, cancelling, infeasible, unbounded, degenerate) through every public operation under every tactic configuration classifies every exception against the documented set and re-checks operands and repeatability; the generators of eight other checks are re-run in classify-only mode.',
+         E1NOTE, 'DESIGN.md 4/C14'),
+ 'C15': e1('Pairs whose guarantees share an interface-level constraint (identical, scaled, weaker, stronger) over shared inputs and kept connection variables, unconnected pairs and merges, both call orders, simplify on/off: every operand guarantee over the result interface must be enforced by the result; unconnected composition must be exact.', 'DESIGN.md 4/C15'),
+ 'C16': e1('Contracts over four names x every (source,target) incl. fresh / absent / same / clashing, rename-to-fresh-and-back and mapping lists (swaps through a temporary) compared with a reference substitution on exact rationals; positional interface rule, identity, clash rejection.', 'DESIGN.md 4/C16'),
+ 'C17': e1('Nested lists of lattice intervals / boxes / triangles (disjoint, touching, overlapping, nested, empty by construction): disjointness enforcement iff a shared behaviour exists, membership = some alternative, <= only if union containment, merged alternatives = intersection of unions with empty alternatives dropped - exact reasoning with disjunctions.', 'DESIGN.md 4/C17'),
+ 'C18': e1('Constraint lists over 2-4 variables x integer assignments x axis limits x both roles of the plotted pair, incl. empty and degenerate slices, compared with exact rational vertex enumeration: returned points are corners, no corner missing, counter-clockwise order, ValueError iff empty or unassigned.', 'DESIGN.md 4/C18'),
  'C19': e1('Every single-field edit of every base term / list / contract / compound contract, all ordered pairs and triples of each family, copies and dictionary round trips are compared with field-wise reference equality; symmetry, transitivity and eq=>hash-eq are checked on every pair.', 'DESIGN.md 4/C19'),
 }
 TODO = {}
